@@ -28,7 +28,7 @@ class Mod:
         self.tree=ast.parse(open(path).read()); self.py=pymod
         self.funcs={}; self.classes={}
         self.globs={k:getattr(pymod,k) for k in dir(pymod) if k.strip("_").isupper() and not k.startswith("__") and isinstance(getattr(pymod,k),(str,int,list,tuple,dict))}
-        self.used_globs=[]; self.rx_consts={}
+        self.used_globs=[]; self.rx_consts={}; self.thread_cache={}
         for n in self.tree.body:
             if isinstance(n,ast.FunctionDef): self.funcs[n.name]=n
             if isinstance(n,ast.ClassDef):
@@ -69,6 +69,19 @@ class Fn:
                 if isinstance(n,ast.Assign):
                     for t in n.targets:
                         if isinstance(t,ast.Subscript) and isinstance(t.value,ast.Name) and t.value.id in self.params and t.value.id not in mut: mut.append(t.value.id)
+            # ... or hands one of its parameters to a function that does
+            for n in ast.walk(fn):
+                if isinstance(n,ast.Call) and isinstance(n.func,ast.Name) and n.func.id in mod.funcs and n.func.id!=fn.name:
+                    cal=mod.funcs[n.func.id]
+                    th=mod.thread_cache[n.func.id] if n.func.id in mod.thread_cache else None
+                    if n.func.id not in mod.thread_cache:
+                        mod.thread_cache[n.func.id]=None
+                        try: th=Fn(mod,None,cal).thread
+                        except Unsupported: th=None
+                        mod.thread_cache[n.func.id]=th
+                    if th:
+                        k=[x.arg for x in cal.args.args].index(th)
+                        if k<len(n.args) and isinstance(n.args[k],ast.Name) and n.args[k].id in self.params and n.args[k].id not in mut: mut.append(n.args[k].id)
             if len(mut)==1: self.thread=mut[0]
             elif len(mut)>1: raise Unsupported("two mutated parameters")
     def tmp(self): self.n+=1; return "t%d"%self.n
@@ -241,7 +254,13 @@ class Fn:
         # module function / class constructor
         if isinstance(f,ast.Name) and f.id in self.mod.funcs:
             callee=self.mod.funcs[f.id]; args=self.resolve_args(callee,e,binds,False); self.calls.add((None,f.id))
-            if Fn(self.mod,None,callee).thread: raise Unsupported("call of a function that mutates its argument")
+            th=Fn(self.mod,None,callee).thread
+            if th:
+                # the callee returns (result, updated argument): rebind the variable that was passed
+                k=[x.arg for x in callee.args.args].index(th)
+                if not (k<len(e.args) and isinstance(e.args[k],ast.Name) and e.args[k].id in self.vars): raise Unsupported("mutated argument is not a variable")
+                t=self.tmp(); r=self.tmp(); binds.append("%s <- %s py_call fuel %s ;; "%(t,gname(None,f.id)," ".join(args)))
+                binds.append("p_ <- unpack2 %s ;; let '(%s, v_%s) := p_ in "%(t,r,e.args[k].id)); return r
             return self.call_gen(gname(None,f.id),args,binds,False)
         # function of an imported module that has its own generated unit (juniper_secrets.juniper_decrypt -> G_fn_jun.gen_juniper_decrypt)
         if isinstance(f,ast.Attribute) and isinstance(f.value,ast.Name) and f.value.id not in self.vars and f.value.id in getattr(self.mod,"xmods",{}):
@@ -324,6 +343,23 @@ class Fn:
                 return lib("py_format",o,args,kw)
             if f.attr=="get" and len(e.args)==1:
                 o=self.ex(f.value,binds); return lib("py_get",o,A(0))
+            if f.attr in ("lstrip","rstrip") and not e.args:
+                self.mod.need_lib2=True
+                x=self.ex(f.value,binds); return lib("py_"+f.attr,x)
+            if f.attr=="split" and not e.args:
+                self.mod.need_lib2=True
+                x=self.ex(f.value,binds); return lib("py_split_ws",x)
+            # a method of an object held in a local variable (compiled pattern, match object): uninterpreted, answered by the py_call parameter
+            if f.attr in getattr(self.mod,"method_oracles",()) and isinstance(f.value,ast.Name) and f.value.id in self.vars and not e.keywords:
+                o=self.ex(f.value,binds); name=f.attr; args=[]
+                for a in e.args:
+                    if isinstance(a,ast.Lambda):
+                        # lambda _: <expression not mentioning its parameter>: a constant function, passed as its value
+                        ps=[x.arg for x in a.args.args]
+                        if any(isinstance(n,ast.Name) and n.id in ps for n in ast.walk(a.body)): raise Unsupported("lambda uses its parameter")
+                        name=f.attr+"_const"; args.append(self.ex(a.body,binds))
+                    else: args.append(self.ex(a,binds))
+                t=self.tmp(); binds.append("%s <- py_call (VFun (of_string %s)) (VList [%s]) ;; "%(t,cq(name),";".join([o]+args))); return t
         raise Unsupported("call "+ast.unparse(f))
     # ---- stores (lenses) --------------------------------------------------
     def store(self,target,val):
@@ -380,6 +416,8 @@ class Fn:
             b=[]; a=self.ex(s.body[0].value,b); v=s.body[0].targets[0].id
             if any("v_self) := p_" in x for x in b): raise Unsupported("effect in try")
             return sp+"o_ <- py_try_ve (%sNormal %s) ;; let v_%s := match o_ with Some x_ => x_ | None => v_%s end in\n"%("".join(b),a,v,v)+self.block(rest,ind)
+        if isinstance(s,ast.Break): return sp+"Brk %s"%self.env()
+        if isinstance(s,ast.Continue): return sp+"Cont %s"%self.env()
         if isinstance(s,ast.Raise) and isinstance(s.exc,ast.Call) and isinstance(s.exc.func,ast.Name) and s.exc.func.id=="ValueError":
             b=[]; a=self.ex(s.exc,b); return sp+"".join(b)+"Exc (ValueError (match %s with VStr m => m | _ => [] end))"%a
         if isinstance(s,ast.Expr) and isinstance(s.value,ast.Call) and isinstance(s.value.func,ast.Attribute) and s.value.func.attr in ("append","insert") and isinstance(s.value.func.value,ast.Name) and s.value.func.value.id in self.vars:
@@ -412,11 +450,11 @@ class Fn:
         return "(* REFUSED by the translator: %s *)\nDefinition %s (py_call : pyval -> pyval -> res) (fuel:nat) %s : res := Exc Unsupported."%(reason.replace("*)","* )"),gname(self.cls,self.fn.name),ps)
 
 
-def translate_module(path, pymod, wanted=None, oracles=(), xmods=None, external=(), requires=()):
+def translate_module(path, pymod, wanted=None, oracles=(), xmods=None, external=(), requires=(), method_oracles=()):
     """returns (coq text, translated names, {failed name: reason}).
     xmods: {python module name as written in the source: (python module object, Coq module holding its generated functions)};
     external: functions of this module that another generated unit already defines (named in `requires`): translated for their signature, not emitted"""
-    mod=Mod(path,pymod); mod.oracles=set(oracles)
+    mod=Mod(path,pymod); mod.oracles=set(oracles); mod.method_oracles=set(method_oracles)
     mod.xmods={k:(Mod(v[0].__file__,v[0]),v[1]) for k,v in (xmods or {}).items()}
     out=["(* GENERATED by tools/translate.py from %s -- do not edit *)"%path,"From Coq Require Import List ZArith String.","Require Import PyLib.","Import ListNotations.","Local Open Scope Z_scope.","Local Open Scope string_scope.","",
          "(* every generated function takes py_call: the call of a function-valued field (dispatcher / oracle) *)",""]
